@@ -307,7 +307,10 @@ def dec2hp_v1 (dec : α) : α :=
 
 /-- `hp2dec_v` on one array element (angles.py 1252–1257) -/
 def hp2dec_v1 (hp : α) : α :=
-  let ds := divmod (npRound 10 (absv hp * ofNat 1000)) (ofNat 10)
+  let scaled := npRound 10 (absv hp * ofNat 1000)
+  -- scaled[abs(hp) >= 512] = scaled[abs(hp) >= 512].round(9)
+  let scaled := if leb (ofNat 512) (absv hp) then npRound 9 scaled else scaled
+  let ds := divmod scaled (ofNat 10)
   let dm := divmod ds.1 (ofNat 100)
   let dec := dm.1 + dm.2 / ofNat 60 + ds.2 / ofNat 360
   if leb hp (ofNat 0) then -dec else dec
